@@ -21,7 +21,8 @@ pub enum Op {
     Key(usize, u8, Pv),
     ScriptSpend(usize, u8, Pv, [u8; 32]),
     /// taproot_script_spend_signature_hash with a `ScriptPath::with_defaults(script)`: the library computes the leaf hash (TapLeafHash::from_script)
-    ScriptPathSpend(usize, u8, Pv, Vec<u8>),
+    /// … or with `ScriptPath::new(script, code_separator_pos, LeafVersion::from_u8(ver))` (last two fields; defaults 0xc4 / 0xffffffff)
+    ScriptPathSpend(usize, u8, Pv, Vec<u8>, u8, u32),
     Wit(usize, Vec<Vec<u8>>),
 }
 
@@ -55,7 +56,8 @@ pub fn show_op(o: &Op) -> String {
             match l { None => "-:0".to_string(), Some((h, pos)) => format!("{}:{}", hex(h), pos) }),
         Op::Key(i, t, p) => format!("K:{}:{}:{}", i, t, show_pv(p)),
         Op::ScriptSpend(i, t, p, h) => format!("P:{}:{}:{}:{}", i, t, show_pv(p), hex(h)),
-        Op::ScriptPathSpend(i, t, p, sc) => format!("Q:{}:{}:{}:{}", i, t, show_pv(p), hx(sc)),
+        Op::ScriptPathSpend(i, t, p, sc, 0xc4, 0xffff_ffff) => format!("Q:{}:{}:{}:{}", i, t, show_pv(p), hx(sc)),
+        Op::ScriptPathSpend(i, t, p, sc, v, pos) => format!("Q:{}:{}:{}:{}:{}:{}", i, t, show_pv(p), hx(sc), v, pos),
         Op::Wit(i, st) => format!("W:{}:{}", i, hex(&serialize(st))),
     }
 }
@@ -74,7 +76,8 @@ pub fn parse_op(s: &str, spent: &[TxOut]) -> Option<Op> {
         ("L", 4) => Some(Op::Legacy(f[1].parse().ok()?, f[2].parse().ok()?, ux(f[3])?)),
         ("S", 5) => Some(Op::Segwit(f[1].parse().ok()?, f[2].parse().ok()?, ux(f[3])?, deserialize(&unhex(f[4])?).ok()?)),
         ("K", 5) => Some(Op::Key(f[1].parse().ok()?, f[2].parse().ok()?, parse_pv(f[3], f[4], spent)?)),
-        ("Q", 6) => Some(Op::ScriptPathSpend(f[1].parse().ok()?, f[2].parse().ok()?, parse_pv(f[3], f[4], spent)?, ux(f[5])?)),
+        ("Q", 6) => Some(Op::ScriptPathSpend(f[1].parse().ok()?, f[2].parse().ok()?, parse_pv(f[3], f[4], spent)?, ux(f[5])?, 0xc4, 0xffff_ffff)),
+        ("Q", 8) => Some(Op::ScriptPathSpend(f[1].parse().ok()?, f[2].parse().ok()?, parse_pv(f[3], f[4], spent)?, ux(f[5])?, f[6].parse().ok()?, f[7].parse().ok()?)),
         ("P", 6) => Some(Op::ScriptSpend(f[1].parse().ok()?, f[2].parse().ok()?, parse_pv(f[3], f[4], spent)?, <[u8; 32]>::try_from(&unhex(f[5])?[..]).ok()?)),
         ("T", 8) => {
             let annex = if f[5] == "-" { None } else { Some(unhex(f[5].strip_prefix('x')?)?) };
@@ -109,18 +112,19 @@ pub fn query<R: std::ops::Deref<Target = Transaction>>(c: &mut SighashCache<R>, 
             }
             None => "harnesserr ty".into() },
         Op::Key(i, t, p) => match schnorr(*t) { Some(t) => with_pv(p, spent, |pv| tap_res(c.taproot_key_spend_signature_hash(*i, pv, t, genesis))), None => "harnesserr ty".into() },
-        Op::ScriptPathSpend(i, t, p, sc) => match schnorr(*t) { Some(t) => { let script = Script::from(sc.clone());
-            with_pv(p, spent, |pv| tap_res(c.taproot_script_spend_signature_hash(*i, pv, elements::sighash::ScriptPath::with_defaults(&script), t, genesis))) } None => "harnesserr ty".into() },
+        Op::ScriptPathSpend(i, t, p, sc, v, pos) => match (schnorr(*t), elements::taproot::LeafVersion::from_u8(*v)) { (Some(t), Ok(lv)) => { let script = Script::from(sc.clone());
+            let sp = if *v == 0xc4 && *pos == 0xffff_ffff { elements::sighash::ScriptPath::with_defaults(&script) } else { elements::sighash::ScriptPath::new(&script, *pos, lv) };
+            with_pv(p, spent, |pv| tap_res(c.taproot_script_spend_signature_hash(*i, pv, sp, t, genesis))) } _ => "harnesserr ty".into() },
         Op::ScriptSpend(i, t, p, h) => match schnorr(*t) { Some(t) => with_pv(p, spent, |pv| tap_res(c.taproot_script_spend_signature_hash(*i, pv, TapLeafHash::from_byte_array(*h), t, genesis))), None => "harnesserr ty".into() },
         Op::Wit(..) => "harnesserr wit".into(),
     }));
     r.unwrap_or_else(|_| "panic".into())
 }
 fn op_pv(op: &Op) -> Option<(usize, u8, &Pv)> {
-    match op { Op::Taproot(i, t, p, _, _) => Some((*i, *t, p)), Op::Key(i, t, p) => Some((*i, *t, p)), Op::ScriptPathSpend(i, t, p, _) => Some((*i, *t, p)), Op::ScriptSpend(i, t, p, _) => Some((*i, *t, p)), _ => None }
+    match op { Op::Taproot(i, t, p, _, _) => Some((*i, *t, p)), Op::Key(i, t, p) => Some((*i, *t, p)), Op::ScriptPathSpend(i, t, p, _, _, _) => Some((*i, *t, p)), Op::ScriptSpend(i, t, p, _) => Some((*i, *t, p)), _ => None }
 }
 fn with_one(op: &Op, j: usize) -> Op {
-    match op.clone() { Op::Taproot(i, t, _, a, l) => Op::Taproot(i, t, Pv::One(j), a, l), Op::Key(i, t, _) => Op::Key(i, t, Pv::One(j)), Op::ScriptPathSpend(i, t, _, sc) => Op::ScriptPathSpend(i, t, Pv::One(j), sc), Op::ScriptSpend(i, t, _, h) => Op::ScriptSpend(i, t, Pv::One(j), h), o => o }
+    match op.clone() { Op::Taproot(i, t, _, a, l) => Op::Taproot(i, t, Pv::One(j), a, l), Op::Key(i, t, _) => Op::Key(i, t, Pv::One(j)), Op::ScriptPathSpend(i, t, _, sc, v, pos) => Op::ScriptPathSpend(i, t, Pv::One(j), sc, v, pos), Op::ScriptSpend(i, t, _, h) => Op::ScriptSpend(i, t, Pv::One(j), h), o => o }
 }
 
 
@@ -212,12 +216,28 @@ pub fn rop(rng: &mut ChaCha20Rng, nin: usize, nout: usize, spent: &[TxOut], tags
                     let leaf = if rng.gen_range(0..2) == 0 { tags.push("scriptpath".into()); Some((r32(rng), pk!(rng, [0xffff_ffffu32, 0, 7, rng.gen()]))) } else { None };
                     Op::Taproot(idx, t, pv, rannex(rng, tags), leaf) }
         13 | 14 => { let t = *pick(rng, &SCHNORR_TYPES); tags.push(format!("K:{:02x}", t)); Op::Key(idx, t, rpv(rng, idx, spent, tags)) }
-        15 => { let t = *pick(rng, &SCHNORR_TYPES); tags.push(format!("Q:{:02x}", t)); let sc = rleafscript(rng, false, tags); Op::ScriptPathSpend(idx, t, rpv(rng, idx, spent, tags), sc) }
+        15 => { let t = *pick(rng, &SCHNORR_TYPES); tags.push(format!("Q:{:02x}", t)); let sc = rleafscript(rng, false, tags); let (v, pos) = rleafver(rng, tags); Op::ScriptPathSpend(idx, t, rpv(rng, idx, spent, tags), sc, v, pos) }
         16 => { let t = *pick(rng, &SCHNORR_TYPES); tags.push(format!("P:{:02x}", t)); Op::ScriptSpend(idx, t, rpv(rng, idx, spent, tags), r32(rng)) }
         _ => { tags.push("W".into()); Op::Wit(if rng.gen_range(0..8) == 0 { nin + 1 } else if nin == 0 { 0 } else { rng.gen_range(0..nin) }, rstack(rng, false)) }
     }
 }
 /// a leaf script whose length sits on a compact-size boundary (the library computes the leaf hash from it)
+/// leaf version and code-separator position of a `ScriptPath`: the defaults half of the time, else `ScriptPath::new` with another even version
+pub fn rleafver(rng: &mut ChaCha20Rng, tags: &mut Vec<String>) -> (u8, u32) {
+    if rng.gen_range(0..2) == 0 { tags.push("leafver:default".into()); (0xc4, 0xffff_ffff) }
+    else { let v = pk!(rng, [0xc0u8, 0xc2, 0xc4, 0xc6, 0xfe, 0x66, 0x00, 0x02, 0x7e]); tags.push(format!("leafver:{:02x}", v)); (v, pk!(rng, [0xffff_ffffu32, 0, 1, 7])) }
+}
+/// TapLeafHash computed from the definition (tagged hash "TapLeaf/elements" of version || compact size || script), not through the library's helper
+pub fn leaf_hash_def(ver: u8, script: &[u8]) -> [u8; 32] {
+    use elements::hashes::{sha256, Hash, HashEngine};
+    let t = sha256::Hash::hash(b"TapLeaf/elements").to_byte_array();
+    let mut e = sha256::Hash::engine();
+    e.input(&t); e.input(&t); e.input(&[ver]);
+    let n = script.len() as u64;
+    if n < 253 { e.input(&[n as u8]); } else if n <= 0xffff { e.input(&[0xfd]); e.input(&(n as u16).to_le_bytes()); } else if n <= 0xffff_ffff { e.input(&[0xfe]); e.input(&(n as u32).to_le_bytes()); } else { e.input(&[0xff]); e.input(&n.to_le_bytes()); }
+    e.input(script);
+    sha256::Hash::from_engine(e).to_byte_array()
+}
 pub fn rleafscript(rng: &mut ChaCha20Rng, big: bool, tags: &mut Vec<String>) -> Vec<u8> {
     let n = if big && rng.gen_range(0..4) == 0 { pk!(rng, [65535usize, 65536]) } else { pk!(rng, [0usize, 1, 34, 252, 253, 254, 255, 256, 300]) };
     tags.push(format!("leafscript:{}", match n { 0..=252 => "<253", 253..=65535 => "253..65535", _ => ">=65536" }));
